@@ -276,6 +276,18 @@ func (w *kworld) doBatch(task string, n int, ring *gmsl.KeyRing, nfetch int) {
 			f = strictMark
 		}
 		reqs = append(reqs, gmsl.VerifyJSONRequest{ServerName: s.Name, AtTS: ts, Message: m.raw, ValidityCheckingFunc: f})
+		if !wide && t.Chance(80) {
+			// the same message at the same instant once more, judged by the
+			// other validity rule (one event of a room version before 5 and
+			// one after it may well be the same bytes to the key ring)
+			infos = append(infos, reqInfo{m, ts, !strict})
+			g := gmsl.NoStrictValidityCheck
+			if !strict {
+				g = strictMark
+			}
+			reqs = append(reqs, gmsl.VerifyJSONRequest{ServerName: s.Name, AtTS: ts, Message: m.raw, ValidityCheckingFunc: g})
+			w.r.Probe("request_repeated_under_the_other_validity_rule")
+		}
 	}
 	rec := &callRec{task: task, n: n, start: now}
 	ctx := context.WithValue(sim.WithTask(context.Background(), task), recKey{}, rec)
